@@ -160,7 +160,7 @@ class Policy:
 
 
 class Scheduler:
-    def __init__(self, n_threads, policy=None, segments=None, opcodes=False, keep_sites=False):
+    def __init__(self, n_threads, policy=None, segments=None, opcodes=False, keep_sites=False, step_cap=STEP_CAP):
         self.n = n_threads
         self.policy = policy
         self.replay_segments = [list(s) for s in segments] if segments is not None else None
@@ -177,6 +177,7 @@ class Scheduler:
         self.segments = []  # recorded: [tid, steps]
         self.switches = 0
         self.capped = False
+        self.step_cap = step_cap
         self.errors = []
         self.parked_selfs = {}
         self.overlaps = 0
@@ -243,7 +244,7 @@ class Scheduler:
         rel = self._rel(code.co_filename)
         line = frame.f_lineno or 0
         self.hash.update(f"{tid}:{rel}:{line}:{event[0]};".encode())
-        if self.step > STEP_CAP:
+        if self.step > self.step_cap:
             self.capped = True
             self._account(tid)
             return
